@@ -10,3 +10,5 @@ for p in "$@"; do
   (cd /verif && timeout 1800 ./check $p --tier quick 2>&1 | grep -E "VIOLATION|KNOWN-FINDING|Traceback|Error" ; echo "exit=${PIPESTATUS[0]}")
 done
 git -C /repo checkout -- . ; git -C /repo status --short | head -3
+# leave the cached binaries built from the clean tree again (confirm_mutant.sh uses them as the unchanged build)
+(cd /verif && python3 -c "import sys; sys.path.insert(0,'lib'); import common; common.build_redo(True)") >/dev/null 2>&1
